@@ -58,6 +58,12 @@ BX_WHY = {
 }
 
 
+ENV_CLAUSES = {
+    'C08+C10.delay.no-input-before-the-delay-is-complete',
+    'C09.window-not-stale',
+}
+
+
 def proof_level(f):
     """An obligation of the proof script, not of the contract (see the use in main)."""
     if f.get('labelled') or f.get('kind') in ('bounded-contract-check', 'compile'):
@@ -252,6 +258,14 @@ def main():
         # without a stand-in (spec-level theorems, kernels) and Kani harnesses (which come with their own counterexample)
         # report as before.  Known findings are matched before this step.
         new_fails = [f for f in fails if not finding_for(kf, prop, f)]
+        # Exception: clauses about what the PEER may do between two statements of one work() call (a consumer freeing output
+        # space, a window made stale by another acquisition).  No single-threaded stand-in can produce that interleaving --
+        # it is exactly what the universally quantified environment of the stream contract adds over any harness (defect
+        # F05d was found this way and only reproduced with a two-thread stress test) -- so these are reported on the
+        # verifier's word, as the brief's minimum allows.
+        env_fails = [f for f in new_fails if f['label'] in ENV_CLAUSES]
+        if env_fails:
+            new_fails = []
         if new_fails and not uname.startswith('kani:') and uname in bx.UNIT_HARNESS and not any(f.get('counterexample') for f in new_fails):
             br = bx.run([uname], REPO, seed=seed)
             bounded.append({'unit': uname, 'bounded': True, 'why': 'second opinion on %d failed obligation(s) of the verifier' % len(new_fails),
